@@ -31,6 +31,7 @@ type SweepConfig struct {
 	ExcludeFuncs []string `json:"exclude_funcs"` // function key fragments never swept (generated visitors ...)
 	ArityFuncs   []string `json:"arity_funcs"`   // wrappers "<func>:<kind>" that guarantee the argument count of the callback they are given
 	MaxInstrs    int      `json:"max_instrs"`
+	Uses         []string `json:"uses"` // axioms every swept function may rely on (each backed by an obligation of the property)
 }
 
 type SweepList struct {
@@ -44,7 +45,7 @@ func (v *Verifier) sweepContract(fn *ssa.Function, arity map[*ssa.Function]strin
 	if c := v.contracts[fn]; c != nil {
 		return c
 	}
-	con := &Contract{Pkg: pkgOf(fn).Path(), Key: localFuncKey(fn), Loops: map[int]*LoopSpec{}, Callbacks: map[string]*CallbackSpec{}, NoPanic: true}
+	con := &Contract{Pkg: pkgOf(fn).Path(), Key: localFuncKey(fn), Loops: map[int]*LoopSpec{}, Callbacks: map[string]*CallbackSpec{}, NoPanic: true, Uses: v.sweepUses}
 	// receiver and pointer parameters of methods are non-nil where the function dereferences them unconditionally is
 	// NOT assumed: a nil argument is an input like any other. Only the arity guarantee of the registration wrappers is.
 	// type invariants of the inputs (assumptions of the sweep, listed in evidence): pointer receivers, pointer parameters to
@@ -111,6 +112,19 @@ func (v *Verifier) arityFacts(cfg SweepConfig) map[*ssa.Function]string {
 		i := strings.LastIndex(a, ":")
 		kinds[modulePath+"/"+a[:i]] = a[i+1:]
 	}
+	minInitial := int64(-1)
+	initialBad := false
+	var initialWrapper *ssa.Function
+	defer func() {
+		// the closure inside InitialTextFunction: every registration passes a constant minOther >= 0
+		if initialWrapper != nil && !initialBad && minInitial >= 0 {
+			for _, an := range initialWrapper.AnonFuncs {
+				if len(an.Params) > 0 {
+					out[an] = fmt.Sprintf("len(%s) >= %d", an.Params[len(an.Params)-1].Name(), minInitial+1)
+				}
+			}
+		}
+	}()
 	for _, fn := range v.moduleFunctions(false) {
 		for _, b := range fn.Blocks {
 			for _, in := range b.Instrs {
@@ -159,6 +173,20 @@ func (v *Verifier) arityFacts(cfg SweepConfig) map[*ssa.Function]string {
 					m, ok2 := ci(1)
 					if ok1 && ok2 {
 						out[target] = fmt.Sprintf("len(%s) >= %d && len(%s) <= %d", pn, n, pn, m)
+					}
+				case "initial":
+					// InitialTextFunction(minOther, maxOther, f): wraps f behind MinAndMaxArgsCheck(minOther+1, maxOther+1, ..) and hands
+					// f everything after the first argument; the wrapper's own closure sees at least minOther+1 arguments
+					n, ok1 := ci(0)
+					m, ok2 := ci(1)
+					if ok1 && ok2 && n >= 0 {
+						out[target] = fmt.Sprintf("len(%s) >= %d && len(%s) <= %d", pn, n, pn, m)
+						if minInitial < 0 || n < minInitial {
+							minInitial = n
+						}
+						initialWrapper = call.Common().StaticCallee()
+					} else {
+						initialBad = true
 					}
 				}
 			}
@@ -246,6 +274,7 @@ func cmdSweep(args []string) int {
 	os.RemoveAll(workdir)
 	os.MkdirAll(workdir, 0o755)
 	defer os.RemoveAll(workdir)
+	v.sweepUses = cfg.Sweep.Uses
 	arity := v.arityFacts(*cfg.Sweep)
 	list := SweepList{NotCovered: map[string]string{}}
 	start := time.Now()
